@@ -3,8 +3,8 @@
    GENERATED from typhon/physics/atmosphere.py (coq/gen/atmosphere.v, regenerated on every run). *)
 From Coq Require Import Reals List.
 From TyphonGen Require Import atmosphere.
-From Typhon Require Import Model.C14_column Model.C14_rint Model.C14_forms Proofs.C14_trapz Proofs.C14_rint Proofs.C14_hydro
-  Proofs.C14_forms.
+From Typhon Require Import Model.C14_column Model.C14_rint Model.C14_forms Model.C14_quad Proofs.C14_trapz Proofs.C14_rint
+  Proofs.C14_hydro Proofs.C14_forms Proofs.C14_quad.
 Import ListNotations.
 Open Scope R_scope.
 
@@ -156,6 +156,141 @@ Example nonvacuous_converge :
   (forall n, length (witness_grid n) = S (S n)).
 Proof. exact nonvacuous_converge_witness. Qed.
 
+(* ---- each quadrature against the continuum integral.
+   The integrand is a function sampled on the grid: `trapz (map f xs) xs` is integrate_column(f(x), x), and
+   `iwv_hydro (map fx p) p`, `iwv_general (map fx z) (map fp z) (map fT z) z` are the two forms of integrate_water_vapor for
+   profiles given as functions of pressure resp. height (vocabulary: Model/C14_quad.v; `integral` is Coquelicot's RInt). *)
+
+(* the bridge to Coquelicot's Riemann sums: the trapezoidal sum of the list model is the mean of the Riemann sums of the grid
+   pointed at the left and at the right ends of its layers, and both pointed grids are subdivisions of [a, b] with the grid's
+   own points and mesh, as the filter Riemann_fine in the definition of is_RInt requires *)
+Theorem trapz_is_mean_of_riemann_sums : forall (f : R -> R) xs,
+  trapz (map f xs) xs = (left_sum f xs + right_sum f xs) / 2.
+Proof. exact trapz_mean_of_riemann_sums. Qed.
+Theorem grid_points_are_fine_subdivisions : forall a b d xs, a < b -> 0 <= d ->
+  nondecreasing xs -> grid_from_to a b xs -> steps_within d xs ->
+  fine_subdivision_of xs a b d (left_points xs) /\ fine_subdivision_of xs a b d (right_points xs).
+Proof. exact grid_points_fine. Qed.
+(* (1) convergence: for a Riemann-integrable integrand and ANY sequence of grids from a to b (uniform or not, as real
+   soundings are) whose largest step tends to 0, the quadrature tends to the integral; also on decreasing grids (pressure) *)
+Theorem trapz_converges_to_integral : forall (f : R -> R) a b (grid : nat -> list R), a < b -> integrable f a b ->
+  (forall n, nondecreasing (grid n) /\ grid_from_to a b (grid n)) -> mesh_vanishes grid ->
+  tends_to (fun n => trapz (map f (grid n)) (grid n)) (integral f a b).
+Proof. exact trapz_converges. Qed.
+Theorem trapz_converges_to_integral_on_decreasing_grids : forall (f : R -> R) a b (grid : nat -> list R), b < a -> integrable f a b ->
+  (forall n, nonincreasing (grid n) /\ grid_from_to a b (grid n)) -> mesh_vanishes grid ->
+  tends_to (fun n => trapz (map f (grid n)) (grid n)) (integral f a b).
+Proof. exact trapz_converges_decreasing. Qed.
+(* in particular on the uniform grids of n + 1 layers (numpy.linspace(a, b, n + 2)), whichever way they run *)
+Theorem trapz_uniform_converges_to_integral : forall (f : R -> R) a b, a <> b -> integrable f a b ->
+  tends_to (fun n => trapz (map f (uniform_grid a b n)) (uniform_grid a b n)) (integral f a b).
+Proof. exact trapz_uniform_converges. Qed.
+(* (2) error bounds on ANY grid from a to b whose steps are at most h:  (b - a) h^2 M / 12 for a C^2 integrand with |f''| <= M,
+   (b - a) h L / 2 for an integrable L-Lipschitz integrand;  on the uniform grid h = (b - a) / (n + 1) *)
+Theorem trapz_error_bound_C2 : forall (f df ddf : R -> R) a b M h xs,
+  C2_on f df ddf a b -> (forall x, a <= x <= b -> Rabs (ddf x) <= M) ->
+  nondecreasing xs -> grid_from_to a b xs -> steps_within h xs ->
+  Rabs (trapz (map f xs) xs - integral f a b) <= (b - a) * h ^ 2 * M / 12.
+Proof. exact trapz_error_C2_on. Qed.
+Theorem trapz_error_bound_C2_on_decreasing_grids : forall (f df ddf : R -> R) a b M h xs,
+  C2_on f df ddf b a -> (forall x, b <= x <= a -> Rabs (ddf x) <= M) ->
+  nonincreasing xs -> grid_from_to a b xs -> steps_within h xs ->
+  Rabs (trapz (map f xs) xs - integral f a b) <= (a - b) * h ^ 2 * M / 12.
+Proof. exact trapz_error_C2_on_decreasing. Qed.
+Theorem trapz_error_bound_C2_uniform : forall (f df ddf : R -> R) a b M n,
+  a <= b -> C2_on f df ddf a b -> (forall x, a <= x <= b -> Rabs (ddf x) <= M) ->
+  Rabs (trapz (map f (uniform_grid a b n)) (uniform_grid a b n) - integral f a b) <= (b - a) ^ 3 * M / (12 * INR (S n) ^ 2).
+Proof. exact trapz_uniform_error_C2_on. Qed.
+Theorem trapz_error_bound_lipschitz : forall (f : R -> R) a b L h xs,
+  integrable f a b -> (forall x y, a <= x <= b -> a <= y <= b -> Rabs (f x - f y) <= L * Rabs (x - y)) -> 0 <= L ->
+  nondecreasing xs -> grid_from_to a b xs -> steps_within h xs ->
+  Rabs (trapz (map f xs) xs - integral f a b) <= (b - a) * h * L / 2.
+Proof. exact trapz_error_lipschitz. Qed.
+(* (3) the two forms of integrate_water_vapor.  Hydrostatic form, vmr a function of pressure, grids running down from p0 to
+   p1 < p0:  the limit is - 1/g int_p0^p1 q(vmr(p)) dp;  general form, vmr / p / T functions of height, grids running up from
+   z0 to z1:  the limit is int_z0^z1 vmr rho(p, T, R_v) dz.  Continuous profiles (0 <= vmr <= 1, T > 0) have integrable
+   integrands.  The C^2 bounds are those of (2) (divided by g for the hydrostatic form). *)
+Theorem iwv_hydro_converges_to_integral : forall (fx : R -> R) p0 p1 (grid : nat -> list R),
+  p1 < p0 -> integrable (hydro_integrand fx) p0 p1 ->
+  (forall n, nonincreasing (grid n) /\ grid_from_to p0 p1 (grid n)) -> mesh_vanishes grid ->
+  tends_to (fun n => iwv_hydro (map fx (grid n)) (grid n)) (- integral (hydro_integrand fx) p0 p1 / c_earth_standard_gravity).
+Proof. exact iwv_hydro_converges. Qed.
+Theorem iwv_general_converges_to_integral : forall (fx fp fT : R -> R) z0 z1 (grid : nat -> list R),
+  z0 < z1 -> integrable (vapour_integrand fx fp fT) z0 z1 ->
+  (forall n, nondecreasing (grid n) /\ grid_from_to z0 z1 (grid n)) -> mesh_vanishes grid ->
+  tends_to (fun n => iwv_general (map fx (grid n)) (map fp (grid n)) (map fT (grid n)) (grid n))
+           (integral (vapour_integrand fx fp fT) z0 z1).
+Proof. exact iwv_general_converges. Qed.
+Theorem iwv_integrands_of_continuous_profiles_are_integrable :
+  (forall (fx : R -> R) p0 p1, p1 <= p0 -> (forall p, p1 <= p <= p0 -> continuous_at fx p /\ 0 <= fx p <= 1) ->
+     integrable (hydro_integrand fx) p0 p1) /\
+  (forall (fx fp fT : R -> R) z0 z1, z0 <= z1 ->
+     (forall z, z0 <= z <= z1 -> continuous_at fx z /\ continuous_at fp z /\ continuous_at fT z /\ 0 < fT z) ->
+     integrable (vapour_integrand fx fp fT) z0 z1).
+Proof. exact iwv_integrands_integrable. Qed.
+Theorem iwv_hydro_error_bound_C2 : forall (fx dQ ddQ : R -> R) p0 p1 M h ps,
+  C2_on (hydro_integrand fx) dQ ddQ p1 p0 -> (forall p, p1 <= p <= p0 -> Rabs (ddQ p) <= M) ->
+  nonincreasing ps -> grid_from_to p0 p1 ps -> steps_within h ps ->
+  Rabs (iwv_hydro (map fx ps) ps - integral (hydro_integrand fx) p1 p0 / c_earth_standard_gravity)
+  <= (p0 - p1) * h ^ 2 * M / 12 / c_earth_standard_gravity.
+Proof. exact iwv_hydro_error_C2_on. Qed.
+Theorem iwv_general_error_bound_C2 : forall (fx fp fT dF ddF : R -> R) z0 z1 M h zs,
+  C2_on (vapour_integrand fx fp fT) dF ddF z0 z1 -> (forall z, z0 <= z <= z1 -> Rabs (ddF z) <= M) ->
+  nondecreasing zs -> grid_from_to z0 z1 zs -> steps_within h zs ->
+  Rabs (iwv_general (map fx zs) (map fp zs) (map fT zs) zs - integral (vapour_integrand fx fp fT) z0 z1) <= (z1 - z0) * h ^ 2 * M / 12.
+Proof. exact iwv_general_error_C2_on. Qed.
+(* (4) two analytic columns, for every choice of their parameters: the integrand is integrable and its integral is the closed
+   form, every grid obeys the C^2 bound with the constant of the profile, and the uniform grids converge to the closed form.
+   (a) exponential water-vapour density: isothermal column at T0, vmr = x0 exp(-z / Hx), p = p0 exp(-z / Hp) between 0 and Z:
+       rho_v = rho0 exp(-k z), rho0 = x0 p0 / (R_v T0), k = 1/Hx + 1/Hp;  IWV = rho0 (1 - exp(-k Z)) / k, |rho_v''| <= k^2 rho0;
+   (b) specific humidity q0 (p / ps)^2 between ps and p1 (vmr = specific_humidity2vmr q):
+       IWV = q0 (ps^3 - p1^3) / (3 ps^2 g), |q''| = 2 q0 / ps^2.
+   The harness evaluates integrate_water_vapor on refined grids of both columns and checks these very bounds. *)
+Theorem iwv_exponential_column : forall x0 p0 T0 Hx Hp Z, 0 <= x0 -> 0 <= p0 -> 0 < T0 -> 0 < Hx -> 0 < Hp -> 0 < Z ->
+  let fx := fun z => x0 * exp (- (z / Hx)) in let fp := fun z => p0 * exp (- (z / Hp)) in let fT := fun _ : R => T0 in
+  (integrable (vapour_integrand fx fp fT) 0 Z /\ integral (vapour_integrand fx fp fT) 0 Z = expo_column x0 p0 T0 Hx Hp Z) /\
+  (forall h zs, nondecreasing zs -> grid_from_to 0 Z zs -> steps_within h zs ->
+     Rabs (iwv_general (map fx zs) (map fp zs) (map fT zs) zs - expo_column x0 p0 T0 Hx Hp Z)
+     <= Z * h ^ 2 * expo_curvature x0 p0 T0 Hx Hp / 12) /\
+  tends_to (fun n => let zs := uniform_grid 0 Z n in iwv_general (map fx zs) (map fp zs) (map fT zs) zs)
+           (expo_column x0 p0 T0 Hx Hp Z).
+Proof. exact expo_column_summary. Qed.
+Theorem iwv_quadratic_column : forall q0 ps p1, 0 <= q0 < 1 -> 0 <= p1 -> p1 < ps ->
+  let fx := fun p => specific_humidity2vmr (q0 * (p / ps) ^ 2) in
+  (integrable (hydro_integrand fx) ps p1 /\
+   - integral (hydro_integrand fx) ps p1 / c_earth_standard_gravity = quad_column q0 ps p1) /\
+  (forall h pg, nonincreasing pg -> grid_from_to ps p1 pg -> steps_within h pg ->
+     Rabs (iwv_hydro (map fx pg) pg - quad_column q0 ps p1) <= (ps - p1) * h ^ 2 * (2 * q0 / ps ^ 2) / 12 / c_earth_standard_gravity) /\
+  tends_to (fun n => let g := uniform_grid ps p1 n in iwv_hydro (map fx g) g) (quad_column q0 ps p1).
+Proof. exact quad_column_summary. Qed.
+
+(* non-vacuity.  The grid hypotheses: the uniform grids from a to b (either way) are monotone grids from a to b of n + 2 levels with
+   steps |b - a| / (n + 1), and their mesh vanishes *)
+Example nonvacuous_grids : forall a b,
+  (forall n, grid_from_to a b (uniform_grid a b n) /\ (a <= b -> nondecreasing (uniform_grid a b n)) /\
+             (b <= a -> nonincreasing (uniform_grid a b n)) /\ steps_within (Rabs (b - a) / INR (S n)) (uniform_grid a b n) /\
+             length (uniform_grid a b n) = S (S n)) /\
+  mesh_vanishes (uniform_grid a b).
+Proof. exact uniform_grid_witness. Qed.
+(* the C^2 hypotheses: 2 exp(-3 z) on [0, 1] with M = 18; its integral is the closed form *)
+Example nonvacuous_C2_integrand :
+  let f := fun z => 2 * exp (- (3 * z)) in
+  C2_on f (fun z => - 3 * 2 * exp (- (3 * z))) (fun z => 3 ^ 2 * 2 * exp (- (3 * z))) 0 1 /\
+  (forall z, 0 <= z <= 1 -> Rabs (3 ^ 2 * 2 * exp (- (3 * z))) <= 3 ^ 2 * 2) /\
+  integrable f 0 1 /\ integral f 0 1 = 2 * (1 - exp (- (3 * 1))) / 3.
+Proof. exact (expo_witness 2 3 1 ltac:(Lra.lra) ltac:(Lra.lra) ltac:(Lra.lra)). Qed.
+(* the Lipschitz hypotheses, on an integrand that is not C^2: |x| on [-1, 1] with L = 1, integral 1 *)
+Example nonvacuous_lipschitz_integrand :
+  integrable Rabs (-1) 1 /\ (forall x y, -1 <= x <= 1 -> -1 <= y <= 1 -> Rabs (Rabs x - Rabs y) <= 1 * Rabs (x - y)) /\
+  integral Rabs (-1) 1 = 1.
+Proof. exact lipschitz_witness. Qed.
+(* the two columns with numbers: 2 % vmr at 1000 hPa and 280 K, scale heights 2.5 km / 8 km, up to 10 km;
+   q0 = 0.012 between 1000 and 200 hPa *)
+Example nonvacuous_columns :
+  (0 <= 0.02 /\ 0 <= 100000 /\ 0 < 280 /\ 0 < 2500 /\ 0 < 8000 /\ 0 < 10000) /\ (0 <= 0.012 < 1 /\ 0 <= 20000 /\ 20000 < 100000) /\
+  0 < expo_column 0.02 100000 280 2500 8000 10000 /\ 0 < quad_column 0.012 100000 20000.
+Proof. exact columns_witness. Qed.
+
 (* ---- column_relative_humidity *)
 
 (* 1 for the profile saturated with respect to the mixed phase (the saturation humidity the function itself uses), on
@@ -234,6 +369,22 @@ Print Assumptions iwv_forms_close.
 Print Assumptions iwv_forms_close_second_order.
 Print Assumptions iwv_forms_close_under_refinement.
 Print Assumptions iwv_forms_converge.
+Print Assumptions trapz_is_mean_of_riemann_sums.
+Print Assumptions grid_points_are_fine_subdivisions.
+Print Assumptions trapz_converges_to_integral.
+Print Assumptions trapz_converges_to_integral_on_decreasing_grids.
+Print Assumptions trapz_uniform_converges_to_integral.
+Print Assumptions trapz_error_bound_C2.
+Print Assumptions trapz_error_bound_C2_on_decreasing_grids.
+Print Assumptions trapz_error_bound_C2_uniform.
+Print Assumptions trapz_error_bound_lipschitz.
+Print Assumptions iwv_hydro_converges_to_integral.
+Print Assumptions iwv_general_converges_to_integral.
+Print Assumptions iwv_integrands_of_continuous_profiles_are_integrable.
+Print Assumptions iwv_hydro_error_bound_C2.
+Print Assumptions iwv_general_error_bound_C2.
+Print Assumptions iwv_exponential_column.
+Print Assumptions iwv_quadratic_column.
 Print Assumptions crh_saturated_is_one.
 Print Assumptions crh_linear_in_q.
 Print Assumptions p2h_starts_at_zero.
